@@ -46,6 +46,7 @@ static void *place(int len, int align, int pl)
 }
 
 /* generation: data mode 0 xorshift, 1 zero + impulse (isrc, ipos, ival) */
+static int GEN_REFRESH;
 static void gen_case(const struct rimpl *im, int vects, int len, int pl, int imp_src, int imp_pos, uint8_t imp_val)
 {
 	char key[256];
@@ -71,10 +72,32 @@ static void gen_case(const struct rimpl *im, int vects, int len, int pl, int imp
 		memset(Q, 0x55, len);
 		arr[nsrc + 1] = Q;
 	}
+	if (GEN_REFRESH && nsrc > 0 && len > 0) {
+		/* parity refresh: the destination already holds the exact parity of ALMOST the same data (GEN_REFRESH 1: one source byte
+		 * differs, 2: one 64-byte sector differs, 3: nothing differs) - whatever it holds, the call must leave the parity of the sources */
+		static uint8_t op[NMAX], oq[NMAX];
+		uint8_t *olds[VMAX], *tmp = malloc(len);
+		for (int i = 0; i < nsrc; i++)
+			olds[i] = src[i];
+		memcpy(tmp, src[nsrc / 2], len);
+		if (GEN_REFRESH == 1)
+			tmp[(len * 5 / 7) % len] ^= 0x40;
+		else if (GEN_REFRESH == 2)
+			for (int j = (len / 2) & ~63; j < len && j < ((len / 2) & ~63) + 64; j++)
+				tmp[j] ^= (uint8_t)(j | 1);
+		olds[nsrc / 2] = tmp;
+		ref_pq(olds, nsrc, len, op, Q ? oq : NULL);
+		memcpy(P, op, len);
+		if (Q)
+			memcpy(Q, oq, len);
+		free(tmp);
+	}
 	int r = -999;
 	/* every kernel call is made with all caller-saved vector/mask registers poisoned (all-ones or a5, by placement): the result
 	 * must not depend on what an earlier call left in a register the ABI does not preserve */
 	v_pcall_mode = 1 + (pl == 1);
+	if (vects > 0)
+		g_readonly(arr, 1); /* the pointer array is the caller's and is only read */
 	if (V_TRY()) {
 		r = (int)PCALL(im->f, vects, len, arr);
 		V_END();
@@ -403,6 +426,9 @@ int main(int argc, char **argv)
 						goto out;
 					for (int pl = 0; pl < 3; pl++)
 						gen_case(im, vects, len, pl, -1, 0, 0);
+					for (GEN_REFRESH = 1; GEN_REFRESH <= 3; GEN_REFRESH++)
+						gen_case(im, vects, len, 0, -1, 0, 0);
+					GEN_REFRESH = 0;
 					if (len <= 256 && im->level < 0) {
 						int nsrc = vects - (im->op == R_PQ_GEN ? 2 : 1);
 						for (int s = 0; s < nsrc; s++)
